@@ -5,10 +5,10 @@ use poulpy_core::layouts::{
     Base2K, Dnum, Dsize, GGSWInfos, GGSWPreparedFactory, GLWEInfos, LWEInfos, Rank, TorusPrecision, prepared::GGSWPrepared,
 };
 use poulpy_core::layouts::{
-    GGLWEInfos, GGLWEPreparedToRef, GGSW, GGSWLayout, GGSWPreparedToMut, GGSWPreparedToRef, GLWEAutomorphismKeyHelper,
-    GetGaloisElement, LWE,
+    GGLWEInfos, GGLWEPreparedToRef, GGSW, GGSWLayout, GGSWPreparedToMut, GGSWPreparedToRef, GLWE, GLWEAutomorphismKeyHelper,
+    GLWELayout, GetGaloisElement, LWE,
 };
-use poulpy_core::{EncryptionInfos, GLWECopy, GLWEDecrypt, GLWEPacking, LWEFromGLWE};
+use poulpy_core::{EncryptionInfos, GLWECopy, GLWEDecrypt, GLWEKeyswitch, GLWEPacking, LWEFromGLWE};
 
 use poulpy_core::{GGSWEncryptSk, ScratchTakeCore, layouts::GLWESecretPreparedToRef};
 use poulpy_hal::api::{ModuleLogN, ScratchAvailable, ScratchFromBytes};
@@ -394,7 +394,26 @@ where
         // The LWE temporary is (n + 1) * size * 8 bytes, which is not a multiple of the scratch
         // alignment: round up so that `threads * tmp_bytes` splits into per-thread windows that
         // each still hold `tmp_bytes` after `Scratch::split_mut` re-aligns them.
-        (self.circuit_bootstrapping_execute_tmp_bytes(block_size, extension_factor, res_infos, &bdd_infos.cbt_infos())
+        // The bit extraction (`FheUint::get_bit_lwe`) runs on the same remainder as the circuit bootstrapping.
+        let ks_lwe_infos = bdd_infos.ks_lwe_infos();
+        let extract: usize = match bdd_infos.ks_glwe_infos() {
+            Some(ks_glwe_infos) => {
+                let tmp_infos = GLWELayout {
+                    n: bits_infos.n(),
+                    base2k: ks_lwe_infos.base2k(),
+                    k: ks_lwe_infos.max_k().min(bits_infos.max_k()),
+                    rank: ks_lwe_infos.rank_out(),
+                };
+                GLWE::bytes_of_from_infos(&tmp_infos)
+                    + self
+                        .glwe_keyswitch_tmp_bytes(&tmp_infos, bits_infos, &ks_glwe_infos)
+                        .max(self.lwe_from_glwe_tmp_bytes(bits_infos, &tmp_infos, &ks_lwe_infos))
+            }
+            None => self.lwe_from_glwe_tmp_bytes(bits_infos, bits_infos, &ks_lwe_infos),
+        };
+        (self
+            .circuit_bootstrapping_execute_tmp_bytes(block_size, extension_factor, res_infos, &bdd_infos.cbt_infos())
+            .max(extract)
             + GGSW::bytes_of_from_infos(res_infos)
             + LWE::bytes_of_from_infos(bits_infos))
         .next_multiple_of(poulpy_hal::DEFAULTALIGN)
